@@ -40,6 +40,7 @@ MODEL_SWITCHES = [
     ("MC_IscanW", "MC_IscanW_bug18.cfg", "CursorOK", "F18: a deleted saved layer root below layer 0 always means 'the layer is gone' (rest of a layer with a collapsed interior root skipped)"),
     ("MC_IscanW", "MC_IscanW_bug19.cfg", "EaAct", "F19: early_abort cursor goes on when its border and the neighbour were emptied"),
     ("MC_IscanW", "MC_IscanW_bug20.cfg", "CursorOK", "F20: the new root of a layer is looked up in the border saved for the upper layer although that border was split and the link moved"),
+    ("MC_IscanW", "MC_IscanW_bug21.cfg", "CursorOK", "F21: a deleted saved layer root that is a border always means 'the layer is gone' (wrong for a root border that was split and then emptied)"),
     ("MC_Tree", "MC_Tree_scan5_f2.cfg", "ScanOK", "F2: scan uses l_key with INF"),
     ("MC_Tree", "MC_Tree_scan5_f3.cfg", "PhantomOK", "F3: links-only border not recorded"),
 ]
